@@ -138,7 +138,7 @@ def check_e2e(acc: Acc, case):
     payload = case.get("payload", b"")
     trailing = case.get("trailing", b"")
     frame, want = conforming(framing, kind, addr, reg, arg, payload, trailing)
-    acc.nontrivial("e2e", framing, repr(kind), addr, reg, repr(arg), frame, case.get("keep"))
+    acc.nontrivial("e2e", framing, repr(kind), addr, reg, repr(arg), frame, case.get("keep"), case.get("host"))
     transport = {"rtu": "udp", "tcp": "tcp", "aa55": "aa55"}[framing]
     if framing == "aa55":
         spec = ("aa55", make_command(framing, kind, addr, reg, arg).request.hex()[8:-4], None)
@@ -149,7 +149,7 @@ def check_e2e(acc: Acc, case):
     peer = ScriptedPeer(netcase.make_responder(transport), netcase.to_actions(c["script"], 1.0))
     world = World(peer, connect_latency=c["latency"])
     loop = VLoop(world)
-    protocol = netcase.make_protocol(transport, 1.0, 2, c["keep"], comm_addr=addr)
+    protocol = netcase.make_protocol(transport, 1.0, 2, c["keep"], comm_addr=addr, host=case.get("host", "192.0.2.1"))
     cmd = make_command(framing, kind, addr, reg, arg)
     out = loop.run(cmd.execute(protocol))
     loop.idle()
@@ -196,6 +196,9 @@ def enum_job(job):
                             c3 = dict(case)
                             c3["keep"] = keep
                             _apply(acc, c3, check_e2e)
+                            if count in (2, 125) and cls == "pattern":   # inverter configured by name / non-canonical address spelling
+                                for host in netcase.HOSTS[1:]:
+                                    _apply(acc, dict(c3, host=host), check_e2e)
                 aa = {"framing": "aa55", "kind": "read", "addr": 0, "reg": 0x701, "arg": count, "payload": _payload(cls, 2 * count, count)}
                 _apply(acc, aa)
     elif what == "aa55len":
